@@ -605,10 +605,10 @@ def tag(case, f):
 
 
 SUBS = [
-    Sub('frame', frame_cases(), check_frame, quick=2500, thorough=80000, tag=tag,
+    Sub('frame', frame_cases(), check_frame, quick=10000, thorough=80000, tag=tag,
         rule='Frame functional updates vs cell-wise model'),
-    Sub('frame_value', frame_value_cases(), check_frame, quick=800, thorough=24000, tag=tag,
+    Sub('frame_value', frame_value_cases(), check_frame, quick=3200, thorough=24000, tag=tag,
         rule='Frame values with mixed column dtypes assigned into wide 2-D blocks with row subsets'),
-    Sub('series', series_cases(), check_series, quick=1500, thorough=40000, tag=tag,
+    Sub('series', series_cases(), check_series, quick=6000, thorough=40000, tag=tag,
         rule='Series functional updates vs list model'),
 ]
